@@ -1319,7 +1319,11 @@ impl<'a> Sem<'a> {
                 self.w(" = ");
                 // defaults may use earlier template arguments (not the argument itself)
                 self.hidden.push(name.clone());
-                self.value(&ty, 2);
+                // now and then a default the indexer cannot type (a bit of a defvar int): the parameter is a
+                // parameter all the same
+                if !(ty == Ty::Bit && self.rng.chance(1, 3) && self.int_bit_select()) {
+                    self.value(&ty, 2);
+                }
                 self.hidden.pop();
             }
             self.rec_targs.push((name.clone(), ty.clone(), d));
